@@ -13,3 +13,15 @@ mod response;
 #[cfg(test)]
 #[cfg(not(target_arch = "wasm32"))]
 pub mod tests;
+
+/// Verification hooks (off unless built with `--cfg wwcore_verif`): re-exports of already-`pub`
+/// items from private modules so that external monitors can drive the pure math directly.
+#[cfg(wwcore_verif)]
+pub mod verif_hooks {
+    pub mod helpers {
+        pub use crate::helpers::*;
+    }
+    pub mod math {
+        pub use crate::math::*;
+    }
+}
